@@ -31,6 +31,10 @@ pub struct Case {
     pub content: u8,
     pub use_feed: bool,
     pub seed: u16,
+    /// after this many items (mod count+1) the publisher is duplicated; the copy sends a few
+    /// items of its own and finishes while the original carries on
+    #[serde(default)]
+    pub dup_at: Option<u8>,
 }
 
 fn interval_of(kind: u8) -> Duration {
@@ -254,11 +258,39 @@ async fn run_typed<K: Kind>(addr: SocketAddr, certs: &Certs, c: &Case) -> Outcom
         Ok(p) => p,
         Err(e) => return Outcome::fail("publisher-open-failed", format!("{e}")),
     };
+    let dup_at = c.dup_at.map(|d| d as usize % (items.len() + 1));
+    let copy_items: Vec<K::Item> = if dup_at.is_some() { (0..1 + c.seed as usize % 3).map(|j| K::item(format!("copy-{j}").into_bytes())).collect() } else { vec![] };
+    macro_rules! duplicate_here {
+        () => {{
+            // the copy is a publisher of its own on the same topic with the same settings:
+            // what it sends arrives once, in its own order, and nothing of the original's
+            let mut p2 = match p.duplicate().await {
+                Ok(p2) => p2,
+                Err(e) => return Outcome::fail("duplicate-failed", format!("{e}")),
+            };
+            for it in &copy_items {
+                if let Err(e) = p2.send(it.clone()).await {
+                    return Outcome::fail("publisher-refused-item", format!("the duplicated publisher refused an item: {e}"));
+                }
+            }
+            match tokio::time::timeout(Duration::from_secs(20), p2.finish()).await {
+                Ok(Ok(())) => {}
+                Ok(Err(e)) => return Outcome::fail("finish-error", format!("finish() of the duplicated publisher returned {e}")),
+                Err(_) => return Outcome::Inconclusive("finish() of the duplicated publisher did not return within 20 s".into()),
+            }
+        }};
+    }
     for (i, it) in items.iter().enumerate() {
+        if dup_at == Some(i) {
+            duplicate_here!();
+        }
         let r = if c.use_feed { p.feed(it.clone()).await } else { p.send(it.clone()).await };
         if let Err(e) = r {
             return Outcome::fail("publisher-refused-item", format!("item {i} ({} bytes) refused: {e}", c.item_bytes(i).len()));
         }
+    }
+    if dup_at == Some(items.len()) {
+        duplicate_here!();
     }
     let end = K::item(b"END-OF-CASE".to_vec());
     if let Err(e) = p.feed(end.clone()).await {
@@ -272,6 +304,7 @@ async fn run_typed<K: Kind>(addr: SocketAddr, certs: &Certs, c: &Case) -> Outcom
     let probe_tag = b"probe-".to_vec();
     let nsub = readers.len();
     let mut got: Vec<Vec<K::Item>> = (0..nsub).map(|_| vec![]).collect();
+    let mut got_copy: Vec<Vec<K::Item>> = (0..nsub).map(|_| vec![]).collect();
     let mut ended = vec![false; nsub];
     let mut alive = vec![false; nsub];
     let mut failure: Option<Outcome> = None;
@@ -279,12 +312,18 @@ async fn run_typed<K: Kind>(addr: SocketAddr, certs: &Certs, c: &Case) -> Outcom
     let mut last = Instant::now();
     let mut probed_at: Option<Instant> = None;
     let mut control_saw_probe = false;
-    while failure.is_none() && !ended.iter().all(|e| *e) && Instant::now() < hard {
+    // (the copy of a duplicated publisher is a publisher of its own: its items may arrive
+    // before, between or after the original's, also after the original's end marker)
+    while failure.is_none() && !(0..nsub).all(|i| ended[i] && got_copy[i].len() >= copy_items.len()) && Instant::now() < hard {
         match tokio::time::timeout(Duration::from_millis(250), rx.recv()).await {
             Ok(Some((si, Ev::Item(m)))) => {
                 last = Instant::now();
                 if K::tag(&m).starts_with(b"probe-final") {
                     alive[si] = true;
+                    continue;
+                }
+                if dup_at.is_some() && K::tag(&m).starts_with(b"copy-") {
+                    got_copy[si].push(m);
                     continue;
                 }
                 if K::tag(&m).starts_with(&probe_tag) || ended[si] {
@@ -366,6 +405,12 @@ async fn run_typed<K: Kind>(addr: SocketAddr, certs: &Certs, c: &Case) -> Outcom
             }
             return Outcome::Inconclusive(format!("subscriber {si}: neither the end marker nor the liveness probe arrived"));
         }
+        if dup_at.is_some() && got_copy[si] != copy_items {
+            return Outcome::fail(
+                "duplicated-publisher-items",
+                format!("subscriber {si}: the duplicated publisher sent {} item(s) and finished; received from it: {:?}", copy_items.len(), got_copy[si].iter().map(|g| String::from_utf8_lossy(&K::tag(g)).into_owned()).collect::<Vec<_>>()),
+            );
+        }
         let got = &got[si];
         if *got != items {
             let firstbad = got.iter().zip(items.iter()).position(|(a, b)| a != b);
@@ -397,6 +442,8 @@ async fn run_typed<K: Kind>(addr: SocketAddr, certs: &Certs, c: &Case) -> Outcom
     if (0..n).any(|i| c.item_bytes(i).len() > 500_000) { labels.push("payload-near-frame-limit"); }
     if c.nsubs % 3 >= 1 { labels.push("multiple-subscribers"); }
     if n == 0 { labels.push("zero-items"); }
+    if dup_at.is_some() { labels.push("publisher-duplicated"); }
+    if let (Some(d), Some(b)) = (dup_at, bsz) { if b > 1 && d % b != 0 { labels.push("duplicated-with-partial-batch"); } }
     if let Some((_, k)) = c.batching { labels.push(["interval-0", "interval-1ms", "interval-1h", "interval-max"][(k % 4) as usize]); }
     Outcome::pass(labels, partial || (c.comp.is_some() && big) || c.nsubs % 3 >= 1)
 }
@@ -424,13 +471,13 @@ pub fn strategy() -> BoxedStrategy<Case> {
         3 => Just(None),
         7 => (prop_oneof![2 => Just(1u32), 4 => 2u32..12, 2 => 12u32..120, 1 => 120u32..=300, 1 => Just(0u32), 1 => Just(100_000u32)], prop_oneof![3 => Just(2u8), 2 => Just(1u8), 2 => Just(0u8), 1 => Just(3u8)]).prop_map(Some),
     ];
-    (0u8..3, comp, batching, 0u8..3, 0u8..6, any::<u8>(), any::<u16>(), proptest::collection::vec(prop_oneof![8 => 0u8..5, 2 => Just(5u8), 1 => Just(6u8), 1 => Just(7u8), 1 => Just(9u8)], 1..6), 0u8..5, any::<bool>(), any::<u16>())
-        .prop_map(|(codec, comp, batching, nsubs, count_kind, count_k, count_r, sizes, content, use_feed, seed)| Case { codec, comp, batching, nsubs, count_kind, count_k, count_r, sizes, content, use_feed, seed })
+    (0u8..3, comp, batching, 0u8..3, 0u8..6, any::<u8>(), any::<u16>(), proptest::collection::vec(prop_oneof![8 => 0u8..5, 2 => Just(5u8), 1 => Just(6u8), 1 => Just(7u8), 1 => Just(9u8)], 1..6), 0u8..5, any::<bool>(), (any::<u16>(), prop_oneof![3 => Just(None), 1 => any::<u8>().prop_map(Some)]))
+        .prop_map(|(codec, comp, batching, nsubs, count_kind, count_k, count_r, sizes, content, use_feed, (seed, dup_at))| Case { codec, comp, batching, nsubs, count_kind, count_k, count_r, sizes, content, use_feed, seed, dup_at })
         .boxed()
 }
 
 pub fn run(ctx: &mut Ctx) {
-    ctx.rule = "configuration x workload: codec {String, Bytes, Bincode<nested struct>} x compression {none, gzip/zlib 0-9, zstd 0-18, lz4, brotli 3 modes x 0-9, presets} x batching {off, BatchConfig::new(size in {0,1,2..300,100000}, interval in {0, 1 ms, 1 h, Duration::MAX})} x 1-3 subscribers; item count chosen relative to the batch size (0, 1, size-1, size, size+1, k*size+r); payload size classes 0 B .. just under the frame limit (clipped so a whole batch fits one frame), content kinds random/repeated/periodic/mixed/text; items submitted with send or feed; each subscriber is warmed up with probes from a second publisher before the publisher under test starts; non-trivial = batching with a count that is not a multiple of the batch size, or compression with a payload > 4 KiB, or >= 2 subscribers; distinct by case hash".into();
+    ctx.rule = "configuration x workload: codec {String, Bytes, Bincode<nested struct>} x compression {none, gzip/zlib 0-9, zstd 0-18, lz4, brotli 3 modes x 0-9, presets} x batching {off, BatchConfig::new(size in {0,1,2..300,100000}, interval in {0, 1 ms, 1 h, Duration::MAX})} x 1-3 subscribers; item count chosen relative to the batch size (0, 1, size-1, size, size+1, k*size+r); payload size classes 0 B .. just under the frame limit (clipped so a whole batch fits one frame), content kinds random/repeated/periodic/mixed/text; items submitted with send or feed; in a quarter of the cases the publisher is duplicated after a generated number of items (also with a partially filled batch) and the copy sends 1-3 items of its own and finishes, which must arrive exactly once and leave the original's sequence untouched; each subscriber is warmed up with probes from a second publisher before the publisher under test starts; non-trivial = batching with a count that is not a multiple of the batch size, or compression with a payload > 4 KiB, or >= 2 subscribers; distinct by case hash".into();
     ctx.assumptions.push("'registration took effect' is established by a probe item from a second publisher having been yielded by every subscriber".into());
     ctx.assumptions.push("a batch that would exceed the frame limit is outside 'items the publisher accepted' and is not generated; batch sizes above 100000 are not generated (the client pre-allocates the batch vector)".into());
     let env = match Env::new() {
